@@ -217,6 +217,39 @@ theorem stash_restart_equals_memory (forms : List Form) (fs : FS) (hinv : SInv f
 
 example : SInv [] ⟨none, none, none⟩ := ⟨by simp, rfl⟩
 
+/-! ## forms outside the guards: the damage is local -/
+
+/-- `history_forms_never_merge`: whatever blanks or tabs the forms contain (no newline rune inside a
+line), the history file decodes form by form: each form is loaded as `decodeLine` of its own line —
+trimmed, split at tabs, or dropped when blank — and never merges with, swallows or splits another. -/
+theorem history_forms_never_merge (fs : List Form) (h : ∀ f ∈ fs, ∀ l ∈ f, NL ∉ l) :
+    decode (fs.flatMap tabAppend) = fs.filterMap (fun f => decodeLine (joinTab f)) :=
+  decode_forms_independent fs h
+
+example : decode ([["  (a)".toList], ["(b\tc".toList, " d)".toList], [" ".toList], ["(e)".toList]].flatMap tabAppend)
+    = [["(a)".toList], ["(b".toList, "c".toList, " d)".toList], ["(e)".toList]] := by decide
+
+/-- `stash_tabs_only_break_lines`: stashed forms that contain tabs (in any line, also as indentation
+of a later line or inside a string) are each loaded as ONE form with its tabs read as line breaks;
+the forms stashed before and after are loaded unchanged. (The seeded mutant C20-6 — a tab line taken
+for a complete form of its own — breaks exactly this.) -/
+theorem stash_tabs_only_break_lines (fs : List Form) (h : ∀ f ∈ fs, stashTabOK f = true) :
+    decodeExpanded (fs.flatMap stashEnc) = some (fs.map normStash) := by
+  have key : ∀ (fs : List Form), (∀ f ∈ fs, stashTabOK f = true) →
+      Decodes (fs.flatMap stashEnc) (fs.map normStash) := by
+    intro fs
+    induction fs with
+    | nil => intro _; exact decodes_nil
+    | cons f fs ih =>
+      intro h
+      have := decodes_append (decodes_stashEnc_tab f (h f (by simp))) (ih (fun g hg => h g (by simp [hg])))
+      simpa using this
+  exact decodes_load (key fs h)
+
+example : stashTabOK ["(defun foo (x)".toList, "\t(bar x))".toList] = true := by decide
+example : decodeExpanded ([["(a)".toList], ["(defun foo (x)".toList, "\t(bar x))".toList], ["(+ 1 2)".toList]].flatMap stashEnc)
+    = some [["(a)".toList], ["(defun foo (x)".toList, [], "(bar x))".toList], ["(+ 1 2)".toList]] := by decide
+
 /-! ## settings -/
 
 /-- `settings_restart`: config.lisp as written after any sequence of `setq`s of watched variables
